@@ -43,11 +43,27 @@ def empty : OciSt :=
 def lookupRef (st : OciSt) (k : RefKey) : Option (Node × Nat) :=
   (st.refs.find? (fun e => e.1 = k)).map (·.2)
 
-/-- `resolver.Memory.Tag`. -/
-def resolverTag (st : OciSt) (n : Node) (ann : Nat) (k : RefKey) : OciSt :=
+/-- `resolver.Memory.Tag` **as it was before the repair of F16**: a reference that moves
+    to another node stays in the tag set of the node it used to point to. -/
+def resolverTagStale (st : OciSt) (n : Node) (ann : Nat) (k : RefKey) : OciSt :=
   { st with
     refs := (k, n, ann) :: st.refs.filter (fun e => e.1 ≠ k)
     tagsOf := fun m => if m = n then (if k ∈ st.tagsOf n then st.tagsOf n else st.tagsOf n ++ [k]) else st.tagsOf m }
+
+/-- The tag sets after reference `k` stopped pointing to whatever it pointed to, unless that
+    is `n` itself (`internal/resolver/memory.go`, `Tag`: the `old.Digest != desc.Digest`
+    branch). -/
+def dropOld (st : OciSt) (n : Node) (k : RefKey) (x : Node) : List RefKey :=
+  match st.lookupRef k with
+  | some (m, _) => if m ≠ n ∧ x = m then (st.tagsOf x).erase k else st.tagsOf x
+  | none => st.tagsOf x
+
+/-- `resolver.Memory.Tag`. -/
+def resolverTag (st : OciSt) (n : Node) (ann : Nat) (k : RefKey) : OciSt :=
+  let t0 := st.dropOld n k
+  { st with
+    refs := (k, n, ann) :: st.refs.filter (fun e => e.1 ≠ k)
+    tagsOf := fun m => if m = n then (if k ∈ t0 n then t0 n else t0 n ++ [k]) else t0 m }
 
 /-- `resolver.Memory.Untag`. -/
 def resolverUntag (st : OciSt) (k : RefKey) : OciSt :=
